@@ -15,6 +15,7 @@ import Mathlib.Tactic.Linarith
 import Mathlib.Algebra.Order.Field.Basic
 import Mathlib.Algebra.Order.Ring.Rat
 import Mathlib.Analysis.SpecialFunctions.Trigonometric.Arctan
+import Mathlib.Analysis.SpecialFunctions.Complex.Arg
 
 namespace A5.C13
 
@@ -66,6 +67,30 @@ theorem gnomonic_roundtrip (rho : ℝ) : Real.tan (Real.arctan rho) = rho := Rea
 
 theorem gnomonic_roundtrip' (phi : ℝ) (h1 : -(Real.pi / 2) < phi) (h2 : phi < Real.pi / 2) : Real.arctan (Real.tan phi) = phi :=
   Real.arctan_tan h1 h2
+
+/-- C13 (polar stage, over the reals): `to_face(to_polar((x, y))) = (x, y)` for every face point, the origin included —
+    `to_polar` returns (ρ, γ) = (√(x²+y²), atan2(y, x)) and `to_face` returns (ρ cos γ, ρ sin γ); atan2 on the reals is `Complex.arg` -/
+theorem polar_roundtrip (x y : ℝ) :
+    (‖(⟨x, y⟩ : ℂ)‖ * Real.cos (Complex.arg ⟨x, y⟩), ‖(⟨x, y⟩ : ℂ)‖ * Real.sin (Complex.arg ⟨x, y⟩)) = (x, y) := by
+  rw [Complex.norm_mul_cos_arg, Complex.norm_mul_sin_arg]
+
+/-- and ρ is the Euclidean length `vec2.length` computes -/
+theorem polar_rho (x y : ℝ) : ‖(⟨x, y⟩ : ℂ)‖ = Real.sqrt (x * x + y * y) := by
+  rw [Complex.norm_def, Complex.normSq_mk]
+
+/-- C13 (polar stage, other direction): a polar pair with ρ > 0 and γ in (−π, π] survives `to_polar(to_face(·))` — the angle is not
+    shifted by a turn and the radius is recovered -/
+theorem polar_roundtrip' (rho gamma : ℝ) (hr : 0 < rho) (hg : gamma ∈ Set.Ioc (-Real.pi) Real.pi) :
+    Complex.arg ⟨rho * Real.cos gamma, rho * Real.sin gamma⟩ = gamma ∧
+      ‖(⟨rho * Real.cos gamma, rho * Real.sin gamma⟩ : ℂ)‖ = rho := by
+  have e : (⟨rho * Real.cos gamma, rho * Real.sin gamma⟩ : ℂ) = (rho : ℂ) * (Complex.cos gamma + Complex.sin gamma * Complex.I) := by
+    apply Complex.ext <;> simp [Complex.cos_ofReal_re, Complex.sin_ofReal_re, Complex.cos_ofReal_im, Complex.sin_ofReal_im]
+  rw [e]
+  refine ⟨Complex.arg_mul_cos_add_sin_mul_I hr hg, ?_⟩
+  rw [norm_mul, Complex.norm_real, Real.norm_eq_abs, abs_of_pos hr]
+  have : ‖Complex.cos (gamma : ℂ) + Complex.sin (gamma : ℂ) * Complex.I‖ = 1 := by
+    rw [← Complex.exp_mul_I]; exact Complex.norm_exp_ofReal_mul_I gamma
+  rw [this, mul_one]
 
 /-- both directions of the model pick the face triangle and the reflection flag with the same functions of the polar angle -/
 theorem same_triangle_selection (polar : Float × Float) :
